@@ -485,7 +485,9 @@ func (fx *Fx) callFuncValue(st *State, call *ast.CallExpr, preArgs []Val) []Val 
 	if len(args) > 1 {
 		a1 = c.box(args[1])
 	}
-	c.oblige(st, "panic", "nil-func("+fx.exprText(call.Fun)+")", fmt.Sprintf("(not (= %s 0))", fv.T), "call of non-nil function value: "+fx.exprText(call), fx.w.pos(call.Pos()))
+	if fx.checkNil() {
+		c.oblige(st, "nil", "nil-func("+fx.exprText(call.Fun)+")", fmt.Sprintf("(not (= %s 0))", fv.T), "call of non-nil function value: "+fx.exprText(call), fx.w.pos(call.Pos()))
+	}
 	st.assume(fmt.Sprintf("(not (= %s 0))", fv.T))
 	c.declareFun("fn_code", []string{"Int"}, "Int")
 	st.logEvent(evTerm("Call", "(fn_code "+fv.T+")", a0, a1, ""))
@@ -508,6 +510,9 @@ func (fx *Fx) havocMods(st *State, ms *modSet) {
 		st.havocAllHeaps()
 	} else {
 		for k := range ms.heaps {
+			if k == "LK" || k == "ONCE" {
+				continue // callees leave lock state balanced (their own lock-released@exit obligation)
+			}
 			st.havocHeap(k)
 		}
 		for k := range ms.fresh {
@@ -612,9 +617,9 @@ func (fx *Fx) pureGlob(key string) bool {
 	for _, g := range fx.w.PureGlobs {
 		pat := strings.TrimSuffix(g, "*")
 		if strings.HasPrefix(key, pat) {
-			// exceptions: setters
-			name := key[strings.LastIndex(key, ".")+1:]
-			if strings.HasPrefix(name, "Set") {
+			// only functions that (transitively, syntactically) write no heap and emit no events
+			ms := fx.w.modsOfFunc(key, nil, nil)
+			if ms.all || ms.emits || len(ms.heaps) > 0 {
 				return false
 			}
 			return true
